@@ -13,7 +13,7 @@ RULE = ("valid half: every encoding from the grammar (<=3 chunks of 1/2/10/16 by
         "size in lower/upper/zero-padded hex; 6 extension forms incl. quoted-string containing ';' (quoted-pair is excluded: Twisted documents the backslash as a disallowed extension byte); last-chunk 0/00; "
         "0-2 trailer fields; 4 kinds of extra bytes) x every split in the tier's cut bound (all compositions when <=12 bytes) "
         "and byte-at-a-time; plus every truncation point of every encoding (whole and byte-at-a-time) followed by noMoreData; "
-        "plus size-limit probes just inside the documented limits. rejection half: every single-byte replacement from a "
+        "plus size-limit probes AT the limits (longest size line / last-chunk line / trailer section accepted in one piece, and one byte shorter) with every 1- and 2-cut in the last 16 bytes. rejection half: every single-byte replacement from a "
         "17-byte alphabet, every single-byte deletion, every CRLF deletion and two insertions at every position of 64 base "
         "encodings, each delivered whole, byte-at-a-time and with every 1-cut; the reference decides ok / tolerated / "
         "must-reject(size-not-hex, no-crlf-after-data, ext-bad-byte) / incomplete. "
@@ -24,8 +24,9 @@ BOUNDS = {"quick": "18360 encodings; <=2 cuts when <=44 bytes else 1 cut, + byte
 ASSUMPTIONS = [
     "the caller stops delivering once finishCallback has fired (HTTPChannel does); bytes of later deliveries count as extra",
     "'rejected' = dataReceived raises (any exception) before finishCallback; 'reports data loss' = noMoreData raises",
-    "size lines stay 3+ bytes below http.maxChunkSizeLineLength and trailers 2+ bytes below the decoder's trailer limit "
-    "(inside the documented limits under every reading of their boundary)",
+    "size limits: the longest chunk-size line / trailer section that the real decoder accepts in ONE piece (capped by "
+    "http.maxChunkSizeLineLength / the decoder's trailer limit) counts as inside the documented limit; it and the next "
+    "shorter one must decode for every cut in the last 16 bytes (incl. the CR|LF cuts)",
     "constructs a sender may not emit but RFC 9112 lets a recipient tolerate (BWS, malformed-but-clean extensions or "
     "trailer lines) may be rejected or decoded; when decoded the body must be the reference's",
 ]
@@ -386,41 +387,89 @@ def run_valid(st, idx, ei, tier, seed):
                 st.sample({"encoding": data, "body": body}, 3)
 
 
+def _one_piece_ok(data):
+    got, fins, order_ok, err, leftover, eof_err = decode([data], eof=False)
+    return err is None and len(fins) == 1
+
+
+def _size_line_stream(L, on_last):
+    """A stream whose data-chunk size line (or last-chunk line) is exactly L bytes long (size + extension)."""
+    ext = b";" + b"e" * (L - 2)
+    parts, body = build((2,), "x", b"", b"0", (), b"X", 0)
+    k = [i for i, (lab, _) in enumerate(parts) if lab == ("last" if on_last else "size")][0]
+    parts[k] = (parts[k][0], parts[k][1] + ext)
+    assert len(parts[k][1]) == L
+    return parts, body
+
+
+def _trailer_stream(T):
+    line = b"A: " + b"t" * (T - 5)          # trailer section of exactly T bytes (field line + its CRLF)
+    return build((1,), "x", b"", b"0", (line,), b"X", 0)
+
+
+def longest_accepted(mk, hi):
+    """Largest size <= hi that the real decoder accepts when the stream arrives in one piece (the limit
+    is derived from the code's own unsplit behaviour, capped by the documented limit, never hard-coded)."""
+    for L in range(hi, max(hi - 8, 6), -1):
+        parts, body = mk(L)
+        if _one_piece_ok(b"".join(b for _, b in parts)):
+            return L
+    return None
+
+
+def _probe(st, tag, parts, body, tail):
+    """Every 1-cut and 2-cut among the last `tail` positions before the extra byte (this includes the CR|LF
+    cuts of the long line and of the CRLFs after it), a few early cuts, and the one-piece run."""
+    data = b"".join(b for _, b in parts)
+    n = len(data)
+    off, end_of_long = 0, None
+    for lab, b in parts:
+        off += len(b)
+        if len(b) > 64:
+            end_of_long = off
+    near = set(range(max(1, end_of_long - tail), min(n, end_of_long + 4)))     # ... e e e | CR | LF | next
+    near |= set(range(max(1, n - tail), n))
+    pos = sorted(near)
+    early = [p for p in (1, 2, 3, 5, 9) if p < n]
+    cuts_list = [()] + [(p,) for p in early + pos] + [(p, q) for p in pos for q in pos if p < q] + \
+                [(e, p) for e in early for p in pos if e < p]
+    for cuts in cuts_list:
+        st.evaluations += 1
+        for sig, det in judge_valid(data, n - 1, body, b"X", cuts, parts):
+            st.violation(sig.replace("valid-rejected:", "valid-rejected:%s:" % tag), det[:160] + " ... " + det[-160:],
+                         {"kind": "valid", "data": data, "cuts": list(cuts), "body": body, "extra": b"X",
+                          "parts": [[l, b] for l, b in parts]})
+        st.nt((tag, n, cuts))
+    st.outcome(tag)
+
+
 def run_limits(st, tier):
-    """Encodings just inside the documented limits must still round-trip for cuts around the long element."""
+    """Encodings at and just inside the size limits must round-trip for every cut around the long element:
+    a stream the decoder accepts in one piece must be accepted for every split."""
     from twisted.web import http
     from twisted.web.http import _ChunkedTransferDecoder
     mx = getattr(http, "maxChunkSizeLineLength", 1024)
     tl = getattr(_ChunkedTransferDecoder(lambda b: None, lambda b: None), "_maxTrailerHeadersSize", 2 ** 16)
-    for L in (mx - 3, mx - 8):
-        ext = b";" + b"e" * (L - 2)
-        parts, body = build((2,), "x", ext, b"0", (), b"X", 0)
-        parts[-4] = ("last", b"0")     # keep the long line on the data chunk only
-        data = b"".join(b for _, b in parts)
-        lm = label_map(parts)
-        pos = sorted(set(list(range(1, 6)) + list(range(L - 4, min(len(data), L + 12)))))
-        for cuts in [()] + [(p,) for p in pos] + [(p, q) for p in pos[-16:] for q in pos[-16:] if p < q]:
-            st.evaluations += 1
-            for sig, det in judge_valid(data, len(data) - 1, body, b"X", cuts, parts):
-                st.violation(sig.replace("valid-rejected:", "valid-rejected:long-size-line:"), det[:300],
-                             {"kind": "valid", "data": data, "cuts": list(cuts), "body": body, "extra": b"X",
-                              "parts": [[l, b] for l, b in parts]})
-            st.nt(("limit-line", L, cuts))
-        st.outcome("size-line-near-limit")
-    for T in (tl - 2, tl - 3):
-        line = b"A: " + b"t" * (T - 5)
-        parts, body = build((1,), "x", b"", b"0", (line,), b"X", 0)
-        data = b"".join(b for _, b in parts)
-        n = len(data)
-        pos = sorted(set([1, 5, 9, 12, 20] + list(range(n - 8, n))))
-        for cuts in [()] + [(p,) for p in pos] + [(p, q) for p in pos for q in pos if p < q]:
-            st.evaluations += 1
-            for sig, det in judge_valid(data, n - 1, body, b"X", cuts, parts):
-                st.violation(sig.replace("valid-rejected:", "valid-rejected:long-trailer:"), det[-300:],
-                             {"kind": "valid", "data": data, "cuts": list(cuts), "body": body, "extra": b"X",
-                              "parts": [[l, b] for l, b in parts]})
-            st.nt(("limit-trailer", T, cuts))
-        st.outcome("trailer-near-limit")
+    for on_last in (False, True):
+        mk = lambda L: _size_line_stream(L, on_last)
+        top = longest_accepted(mk, mx)
+        if top is None:
+            raise AssertionError("harness: no chunk-size line of %d..%d bytes is accepted in one piece" % (mx - 8, mx))
+        st.counters["longest_size_line_max"] = max(top, st.counters.get("longest_size_line_max", 0))
+        for L in sorted(set([top, top - 1, mx - 3, mx - 8])):
+            if L > top:
+                continue
+            parts, body = mk(L)
+            _probe(st, "size-line-at-limit" if L >= top - 1 else "size-line-near-limit", parts, body, 16)
+    top = longest_accepted(_trailer_stream, tl)
+    if top is None:
+        raise AssertionError("harness: no trailer section of %d..%d bytes is accepted in one piece" % (tl - 8, tl))
+    st.counters["longest_trailer_max"] = top
+    for T in sorted(set([top, top - 1, tl - 2, tl - 3])):
+        if T > top:
+            continue
+        parts, body = _trailer_stream(T)
+        _probe(st, "trailer-at-limit" if T >= top - 1 else "trailer-near-limit", parts, body, 16)
 
 
 def replay(w):
